@@ -89,8 +89,23 @@ func ruleRemoveAllDropsEverything(c *Ctx, rule string) {
 			return false, false
 		}
 		if lc, isCall := x.(*ssa.Call); isCall {
-			if _, isLen := builtinCall(lc, "len"); isLen && lc.Call.Args[0] == ssa.Value(methodsP) && an.ConstKey(k) == "0" {
-				return eq, true // len(methods) == 0
+			if _, isLen := builtinCall(lc, "len"); isLen && an.ConstKey(k) == "0" {
+				// the method list itself, or a helper's parameter that receives it
+				arg := lc.Call.Args[0]
+				if arg == ssa.Value(methodsP) {
+					return eq, true // len(methods) == 0
+				}
+				if as := argsOfParam(arg); len(as) > 0 {
+					all := true
+					for _, av := range as {
+						if av != ssa.Value(methodsP) {
+							all = false
+						}
+					}
+					if all {
+						return eq, true
+					}
+				}
 			}
 		}
 		if x == ssa.Value(found) && k.Value == nil {
@@ -98,19 +113,26 @@ func ruleRemoveAllDropsEverything(c *Ctx, rule string) {
 		}
 		return false, false
 	}
+	isNode := func(in ssa.Instruction, base string) bool {
+		// in Remove itself: the looked-up node; in a helper: its receiver / the parameter that receives the node
+		if in.Parent() == f {
+			return base == an.AP(found)
+		}
+		return base == "recv" || strings.HasPrefix(base, "p:")
+	}
 	dropsAll := func(in ssa.Instruction) bool {
-		if base, field, val, ok := fieldStore(in, a.NodeT); ok && field == a.FHandlers && base == an.AP(found) {
+		if base, field, val, ok := fieldStore(in, a.NodeT); ok && field == a.FHandlers && isNode(in, base) {
 			_, isMake := val.(*ssa.MakeMap)
 			return an.IsNilConst(val) || (isMake && !hasMapUpdates(val))
 		}
 		if call, ok := builtinCall(in, "clear"); ok {
-			if base, isH := fieldLoadOf(call.Args[0], a.NodeT, a.FHandlers); isH && base == an.AP(found) {
+			if base, isH := fieldLoadOf(call.Args[0], a.NodeT, a.FHandlers); isH && isNode(in, base) {
 				return true
 			}
 		}
 		return false
 	}
-	path := (&an.Query{Assume: assume, Facts: true, Target: func(in ssa.Instruction) bool { _, ok := in.(*ssa.Return); return ok }, Block: dropsAll}).Search(an.After(found))
+	path := (&an.Query{Assume: assume, Facts: true, Deep: deepDefault, Target: func(in ssa.Instruction) bool { _, ok := in.(*ssa.Return); return ok }, Block: dropsAll}).Search(an.After(found))
 	o := c.R.Add(rule, c.fk(f), "len(methods)==0/drops-whole-handler-map", c.P.Pos(f.Pos()), path == nil, ifelse(path == nil, "with an empty method list every path drops the node's whole handler map", "Remove(pattern) without methods can return without dropping the node's whole handler map: handlers registered under methods outside the default list (an explicitly registered TRACE) stay served on a pattern that was removed"))
 	if path != nil {
 		o.Path = c.P.PathString(path)
@@ -425,7 +447,7 @@ func ruleCorsAlwaysOnServed(c *Ctx, rule string) {
 		}
 		return false, false
 	}
-	path := (&an.Query{Assume: assume,
+	path := (&an.Query{Assume: assume, Deep: deepDefault,
 		Target: func(t ssa.Instruction) bool {
 			call, ok := t.(*ssa.Call)
 			return ok && strings.HasPrefix(an.CalleeName(&call.Call), "dynamic:recv.call")
@@ -479,7 +501,7 @@ func ruleLocksSurviveRecovery(c *Ctx, rule string) {
 	ruleLockset(cc, "X1", "X2")
 	c.R.Rule(c.R.Property+"."+rule, 5, "after a recovered panic later requests are served normally: no lock stays held")
 	for _, o := range sub.Obls {
-		if strings.HasSuffix(o.Rule, ".X2") && (strings.Contains(o.Construct, "released-by") || strings.Contains(o.Construct, "deferred-release")) {
+		if strings.HasSuffix(o.Rule, ".X2") && (strings.Contains(o.Construct, "released-by") || strings.Contains(o.Construct, "deferred-release") || strings.Contains(o.Construct, "result-deferred-or-called")) {
 			c.R.Add(rule, o.Func, o.Construct, o.At, o.OK, o.Msg)
 		}
 	}
